@@ -159,6 +159,13 @@ Theorem C15_rxn_compose_example :
 Proof. exact rxn_compose_example. Qed.
 Print Assumptions C15_rxn_compose_example.
 
+(* the sorted list views the check compares with its ground truth are exactly the dynamic atoms / bonds *)
+Theorem C15_dynamic_lists_spec : forall h, wf_cgr h = true ->
+  (forall n, In n (dynamic_atoms h) <-> is_dynamic_atom h n) /\
+  (forall n m, In (n, m) (dynamic_bonds h) <-> n < m /\ is_dynamic_bond h n m).
+Proof. exact dynamic_lists_spec. Qed.
+Print Assumptions C15_dynamic_lists_spec.
+
 (* ---- reaction string ---- *)
 (* any permutation of the molecules inside the roles gives the same string.  ncomp_det l: two molecules of l with the
    same SMILES have the same number of components (true of every molecule the writer produces, see
